@@ -21,7 +21,7 @@ LEVEL = "exploration"
 RULE = ("generated histories of 2-12 operations over 2-3 accounts with automatic trust on/off per account: message(from, to), "
         "group message(from) to the group of all accounts (decided per member), one-to-one message delivered under the broadcast "
         "address with the sender as participant (only the refusal is asserted), "
-        "reinstall(account) (fresh profile directory: new identity, first login uploads new keys), restart(account), notify(owner, contact) "
+        "reinstall(account) (fresh profile directory: new identity, first login uploads new keys), restart(account), switching automatic trust on or off while running, notify(owner, contact) "
         "(the server's identity-change notification, answered by the library with a key-bundle fetch); every operation "
         "is settled before the next. After each message the model decides whether it must be delivered (the sender accepts the "
         "recipient's current identity and the recipient accepts the sender's: unknown, equal to the pin, or auto-trust) and the pins "
@@ -328,6 +328,15 @@ def _run(case, out, w):
                 pin[o][c] = w.version[c]
             if c in reinstalled:
                 traffic_after_reinstall.add((c, o))
+        elif kind == "set_autotrust":
+            # the application changes the option while it is running (and keeps it for later restarts)
+            jid = w.jids[op[1] % len(w.jids)]
+            value = bool(op[2])
+            w.option[jid] = value
+            w.autotrust[jid] = value
+            clients[jid].props = w.props_of(jid)
+            clients[jid].set_prop(PROP_IDENTITY_AUTOTRUST, value)
+            out.label("autotrust_switched_" + ("on" if value else "off"))
         elif kind == "restart":
             jid = w.jids[op[1] % len(w.jids)]
             clients[jid].stop()
@@ -368,7 +377,7 @@ def script_strategy():
     send = st.tuples(st.just("send"), sel, sel).map(list)
     gsend = st.tuples(st.just("gsend"), sel).map(list)
     bsend = st.tuples(st.just("bsend"), sel, sel).map(list)
-    op = st.one_of(send, send, send, gsend, gsend, bsend, st.tuples(st.just("reinstall"), sel).map(list), st.tuples(st.just("restart"), sel).map(list),
+    op = st.one_of(send, send, send, gsend, gsend, bsend, st.tuples(st.just("set_autotrust"), sel, st.booleans()).map(list), st.tuples(st.just("reinstall"), sel).map(list), st.tuples(st.just("restart"), sel).map(list),
                    st.tuples(st.just("notify"), sel, sel).map(list))
 
     @st.composite
@@ -392,6 +401,9 @@ def _enum_basic():
     for at in ([False, False], [None, True]):
         yield {"sub": "history", "accounts": 2, "autotrust": at, "seed": 4,
                "ops": [["send", 0, 0], ["send", 1, 0], ["bsend", 1, 0], ["reinstall", 1], ["bsend", 1, 0], ["send", 0, 0], ["restart", 0], ["bsend", 1, 0]]}
+    yield {"sub": "history", "accounts": 2, "autotrust": [False, None], "seed": 5,
+           "ops": [["send", 0, 0], ["send", 1, 0], ["reinstall", 1], ["send", 0, 0], ["set_autotrust", 0, True], ["send", 0, 0], ["send", 1, 0],
+                   ["set_autotrust", 0, False], ["reinstall", 1], ["send", 0, 0], ["restart", 0], ["send", 1, 0]]}
     yield {"sub": "history", "accounts": 3, "autotrust": [False, False, True], "seed": 2,
            "ops": [["send", 0, 0], ["send", 0, 1], ["send", 2, 0], ["reinstall", 0], ["send", 0, 0], ["send", 0, 1], ["send", 1, 0], ["send", 2, 0],
                    ["restart", 1], ["send", 0, 0]]}
